@@ -182,6 +182,53 @@ def check_case(run, case, tier='quick'):
         session.drop_session(sn)
         repo.drop_rules(name)
 
+def deep_spec(rng):
+    """A long variable (12 000 entries of pairwise different probability): restoring a session that was interrupted deep inside it walks
+    thousands of index increments (the restore is recursive)."""
+    n = rng.choice([11000, 12000, 13000])
+    tot = n * (n + 1) // 2
+    rows = [['%05d' % i, (n - i) / tot] for i in range(n)]
+    d2 = [[v, p] for v, p in zip(['11', '22'], [0.6, 0.4])]
+    return {'encoding': 'utf-8', 'uuid': 'deep-%08x' % rng.getrandbits(32), 'base': [['D5', 0.75], ['D2', 0.25]], 'prince': [], 'terms': {'D5': rows, 'D2': d2}, 'omen': None}
+
+def check_deep(run, case):
+    """Cut points far into a long session of a large grammar (restore path only)."""
+    import random
+    rng = random.Random(case['hseed'])
+    name, path = gstream.materialise(case['spec'], 'c08d')
+    try:
+        repo.scratch()
+        from lib_guesser.priority_queue import PcfgQueue
+        pcfg = monitors.load_pcfg(path, 'x')
+        q = PcfgQueue(pcfg)
+        U = []
+        while True:
+            it = q.next()
+            if it is None:
+                break
+            U.append((monitors.pt_key(it['pt']) + (it['base_prob'],), it['prob']))
+        run.ev('POP', len(U))
+        n = len(U)
+        for k in sorted({2000, n // 2, n - 2500, n - 1500, n - 3, rng.randrange(9000, n - 1)}):
+            px = U[k][1]
+            err = io.StringIO()
+            import contextlib
+            with contextlib.redirect_stderr(err):
+                q2 = PcfgQueue(pcfg, save_cfg(px))
+            R = []
+            while True:
+                it = q2.next()
+                if it is None:
+                    break
+                R.append((monitors.pt_key(it['pt']) + (it['base_prob'],), it['prob']))
+            run.ev('POP', len(R)); run.ev('restores'); run.ev('deep_restores')
+            if not judge(run, case, U, [(U[:k + 1], True), (R, False)], [px], f'deep cut k={k} of {n} (12 000-entry variable; stderr: {err.getvalue()[:80]!r})'):
+                return
+            run.case(h(['deep', len(U), k]))
+        run.sample({'deep_session': True, 'pre_terminals': n, 'base': case['spec']['base']}, force=True)
+    finally:
+        repo.drop_rules(name)
+
 def stress_spec(rng):
     """~150 000 guesses: long enough (about a second) for a quit typed at a random moment to land somewhere in the middle."""
     def rows(vals, ng):
@@ -260,7 +307,7 @@ def check_cli_stress(run, case):
         repo.drop_rules(name)
 
 def run(run, rng):
-    run.required_events = ['POP', 'restores', 'main_runs', 'SAVE', 'histories', 'cli_stress_runs']
+    run.required_events = ['POP', 'restores', 'main_runs', 'SAVE', 'histories', 'cli_stress_runs', 'deep_restores']
     run.min_distinct = 20
     run.exhaustive = True
     run.extra['exhaustive_scope'] = 'all cut points k of every explored ruleset with <= 400 pre-terminals (restore path); histories via main() are sampled'
@@ -270,12 +317,16 @@ def run(run, rng):
     for i in range(N[run.tier]):
         case = gen_case(rng)
         run.guard(case, check_case, run.tier, seconds=120)
+    if run.shard[0] == 1 or run.tier == 'thorough':
+        run.guard({'spec': deep_spec(rng), 'hseed': rng.getrandbits(32), 'deep': True}, check_deep, seconds=600)
     nstress = (1 if run.shard[0] == 0 else 0) if run.tier == 'quick' else 2
     for i in range(nstress):
         run.guard({'spec': stress_spec(rng), 'hseed': rng.getrandbits(32), 'stress': True}, check_cli_stress, seconds=900)
 
 def replay(run, case):
-    if case['case'].get('stress'):
+    if case['case'].get('deep'):
+        check_deep(run, case['case'])
+    elif case['case'].get('stress'):
         check_cli_stress(run, case['case'])
     else:
         check_case(run, case['case'], 'thorough')
